@@ -13,3 +13,7 @@ Check Props.C04.C04_nothing_queued_behind_a_stop_is_handled :
   forall tr1 tr2 s1 s2 s3 a x1 o1 o2,
   run init tr1 = Acc s1 -> actors s1 a = Some x1 -> Inv.C04b.behind_stop (a_queue x1) o1 o2 ->
   run s1 tr2 = Acc s2 -> step s2 (EvHBegin a o2) = Acc s3 -> False.
+Check Props.C04.C04_fired_exactly_on_a_return_after_the_last_stopped_hook :
+  forall s a how s' x, step s (EvTaskEnd a how) = Acc s' -> actors s a = Some x ->
+  exists x', actors s' a = Some x' /\
+    a_notif x' = match how, a_phase x with EndReturned, PhExiting => NFired | _, _ => NDropped end.
